@@ -69,7 +69,7 @@ func c16StalePart(t *testing.T, rep *vfReport) {
 	fresh := []int64{0, 1, -1, 2, 999, 1e6, 5e8, 1e9, 1e9 + 1, 60e9, 3600e9, 1<<63 - 1, 1<<63 - 2, -1 << 63, -(1 << 62), 1 << 62}
 	hour := int64(3600e9)
 	var ops, impl []string
-	n := vfScale(6000, 200000)
+	n := vfScale(6000, 600000)
 	for i := 0; i < n; i++ {
 		f := fresh[r.Intn(len(fresh))]
 		if r.Chance(15) {
@@ -309,7 +309,7 @@ func c16DispatchPart(t *testing.T, rep *vfReport) {
 		}
 		return out
 	}
-	rounds := vfScale(1, 4)
+	rounds := vfScale(1, 12)
 	for round := 0; round < rounds; round++ {
 		for _, n := range order {
 			role := roles[n]
@@ -487,7 +487,7 @@ func c16BookPart(t *testing.T, rep *vfReport) {
 	impl := []string{"ok"}
 	idx := s.fsmIdx.Load() + 1000
 	term := s.raft.CurrentTerm()
-	n := vfScale(60, 600)
+	n := vfScale(60, 3000)
 	for i := 0; i < n; i++ {
 		kind := kinds[i%len(kinds)]
 		if i >= 2*len(kinds) {
